@@ -135,14 +135,16 @@ def thread_dir(loc, tid):
 
 
 def flushed_from_log(log):
-    """bytes every thread has handed to write() successfully, from the shim log (implementation side)"""
+    """bytes every thread has handed to write(), from the shim log (implementation side): the accepted part of
+    every call (a short write is followed by a call for the rest); a call that failed counts in full - if the
+    program goes on after it, those bytes are events it tried to flush"""
     fl = {}
     for l in log:
-        if l["kind"] == "write" and l["res"] > 0:
+        if l["kind"] == "write":
             m = re.search(r"/thread\.(\d+)/stream\.obs$", l["path"])
             if m:
                 tid = int(m.group(1))
-                fl[tid] = fl.get(tid, b"") + l["data"]
+                fl[tid] = fl.get(tid, b"") + (l["data"][:l["res"]] if l["res"] >= 0 else l["data"])
     return fl
 
 
@@ -298,40 +300,39 @@ def order_string(case, log):
 FORCED = {"sorted": "dDjo", "reverse": "ojDd"}
 
 
-def model_threads(case, ref_log, upto_log=None):
-    """thread descriptions for the oracle: tid/jsz0/jsz1/chunk,chunk...  Chunks are the bytes of the write() calls
-    (real bytes where this run's log has them, zeros of the reference size otherwise)."""
-    per = {}
+def model_threads(case, ref_log, run_log=None):
+    """thread descriptions for the oracle: tid/jsz0/jsz1/chunk,chunk,...   The sizes of the write() calls and of the
+    metadata texts come from the reference LOG run of the same case (they are deterministic); the bytes are the ones
+    this run really wrote (clocks differ between runs), zero-filled where this run did not get that far.  The
+    8-byte stream header is the model's own first write and is not part of the chunks."""
+    sizes, jsz = {}, {}
     for l in ref_log:
         m = re.search(r"/thread\.(\d+)/stream\.(obs|json)$", l["path"])
         if not m:
             continue
         tid = int(m.group(1))
-        d = per.setdefault(tid, {"chunks": [], "json": []})
-        if l["kind"] == "write" and "/%s/" % (TMP if case["mode"] == "tmp" else FIN) in "/" + l["path"]:
-            d["chunks"].append(l["data"] if l["res"] == l["size"] else None)
-            d.setdefault("sizes", []).append(l["size"])
-        if l["kind"] == "fputs":
-            d["json"].append(l["size"])
+        if l["kind"] == "write":
+            sizes.setdefault(tid, []).append(l["size"])
+        elif l["kind"] == "fputs":
+            jsz.setdefault(tid, []).append(l["size"])
     real = {}
-    if upto_log is not None:
-        for l in upto_log:
-            m = re.search(r"/thread\.(\d+)/stream\.obs$", l["path"])
-            if m and l["kind"] == "write":
-                real.setdefault(int(m.group(1)), []).append(l["data"])
+    for l in (run_log if run_log is not None else ref_log):
+        m = re.search(r"/thread\.(\d+)/stream\.obs$", l["path"])
+        if m and l["kind"] == "write" and l["res"] > 0:
+            tid = int(m.group(1))
+            real[tid] = real.get(tid, b"") + l["data"][:l["res"]]
     out = []
     for t in case["threads"]:
         tid = t[0]
-        d = per.get(tid, {"chunks": [], "json": [0, 0], "sizes": []})
-        chunks = []
-        for i, sz in enumerate(d.get("sizes", [])):
-            if upto_log is None:
-                b = d["chunks"][i] or bytes(sz)
-            else:
-                r = real.get(tid, [])
-                b = r[i] if i < len(r) and len(r[i]) == sz else bytes(sz)
-            chunks.append(b.hex() if b else "-")
-        js = d["json"] + [0, 0]
+        szs = sizes.get(tid, [8])
+        data = real.get(tid, b"")
+        total = sum(szs)
+        data = data[:total] + bytes(max(0, total - len(data)))
+        chunks, off = [], szs[0]
+        for sz in szs[1:]:
+            chunks.append(data[off:off + sz].hex() or "-")
+            off += sz
+        js = jsz.get(tid, []) + [2, 3]
         out.append("%d/%d/%d/%s" % (tid, js[0], js[1], ",".join(chunks) if chunks else "-"))
     return ";".join(out)
 
